@@ -1,5 +1,9 @@
 """Debug helper: run the case stored in a replay file in-process (GVM_TRACE=1 for step traces)."""
-import importlib, json, sys, traceback
+import importlib, json, os, sys, traceback
+if os.environ.get("PYTHONHASHSEED") != "0":  # the checks run with a fixed hash seed: set iteration order is part of a case
+    os.environ["PYTHONHASHSEED"] = "0"
+    os.environ.setdefault("PYTHONPATH", os.environ.get("GVM_REPO", "/repo"))
+    os.execv(sys.executable, [sys.executable] + sys.argv)
 sys.path.insert(0, "/verif")
 from gvm.core import Rec, seed_all
 r = json.load(open(sys.argv[1]))
